@@ -149,10 +149,10 @@ class Model(nn.Module):
                     )
                 )
             )
-            if head.output_stride != min_output_stride:
-                factor = strides.index(min_output_stride) - strides.index(
-                    head.output_stride
-                )
+            # `in_channels` above is the width of the last decoder block; a head at a
+            # coarser output stride is attached to an earlier (wider) decoder block.
+            factor = (len(strides) - 1) - strides.index(head.output_stride)
+            if factor != 0:
                 in_channels = in_channels * (self.backbone_config.filters_rate**factor)
             self.head_layers.append(head.make_head(x_in=int(in_channels)))
 
